@@ -29,7 +29,8 @@ Model: imports*=Import packages*=Package;
 Import: 'import' importURI=STRING;
 Package: 'package' name=ID '{' (packages+=Package | classes+=Class | wrapped+=Wrapper)* '}';
 Class: 'class' name=ID ('uses' uses+=[Class:FQN][','])? ('base' base=[Class:FQN])? ';';
-Wrapper: inner=Inner;
+Wrapper: inner=Mid;
+Mid: core=Inner;
 Inner: 'w' name=ID ';';
 FQN: ID('.'ID)*;
 """
